@@ -42,7 +42,7 @@ func newUnitMode(sh *Shared, cs *ContractSet, fn *ssa.Function, asImpl bool) *Un
 	u := &Unit{w: w, cs: cs, root: fn, rootKey: key, contract: cs.ByKey[key],
 		notes: map[string]int{}, trustedUsed: map[string]int{}, inlined: map[string]int{}, declared: map[string]bool{}, oblNames: map[string]int{},
 		logical: map[string]envEntry{}, features: map[string]bool{}, libAssumed: map[string]int{}, unknownCalls: map[string]int{},
-		contractsUsed: map[string]int{}, typeInvUsed: map[string]int{}, termOrigin: map[string]string{}, guardedTerm: map[string]guardedVal{}, epochAlloc: map[int]Term{}, closureTerms: map[string]*closureVal{}, pureFnTerms: map[string]string{}, escapeMemo: map[*ssa.Alloc]bool{}, fnConsts: map[string]*ssa.Function{}}
+		contractsUsed: map[string]int{}, typeInvUsed: map[string]int{}, termOrigin: map[string]string{}, guardedTerm: map[string]guardedVal{}, epochAlloc: map[int]Term{}, closureTerms: map[string]*closureVal{}, pureFnTerms: map[string]string{}, escapeMemo: map[*ssa.Alloc]bool{}, privateMemo: map[*ssa.Function]map[ssa.Value]bool{}, fnConsts: map[string]*ssa.Function{}}
 	if u.contract == nil || asImpl {
 		if ic, alias := ifaceContractFor(sh, cs, fn); ic != nil {
 			// behavioural subtyping: the implementation is verified against the interface method's contract
@@ -93,6 +93,7 @@ func main() {
 	verif := flag.String("verif", "/verif", "verif root")
 	propsFlag := flag.String("props", "", "comma separated property ids (empty: all)")
 	tier := flag.String("tier", "quick", "quick|thorough")
+	solveAll := flag.Bool("solve-all", false, "send unclaimed / known-finding obligations to the solvers in the quick tier too")
 	seed := flag.Int("seed", 0, "solver seed")
 	funcFilter := flag.String("func", "", "only units whose key contains this string")
 	dump := flag.String("dump", "", "dump SSA of this function key and exit")
@@ -322,6 +323,34 @@ func main() {
 		smtDir = *keep
 		os.MkdirAll(smtDir, 0o777)
 	}
+	// quick tier: obligations that are not claimed (contracts/unclaimed.txt) or that belong to an open known finding
+	// are generated and listed but not sent to the solvers (they are expected to fail and would only burn the budget);
+	// the thorough tier solves them as well and reports their current status
+	if *tier != "thorough" && !*solveAll {
+		unc := loadUnclaimed(*verif)
+		known := loadKnown(*verif)
+		for _, o := range obls {
+			skip := false
+			for _, e := range unc {
+				if globMatch(e.pattern, o.Name) {
+					skip = true
+					break
+				}
+			}
+			if !skip {
+				for _, k := range known {
+					if k.Status == "open" && globMatch(k.Obligation, o.Name) {
+						skip = true
+						break
+					}
+				}
+			}
+			if skip {
+				o.Status = "not-attempted"
+				o.skipSolve = true
+			}
+		}
+	}
 	// discharge: first one incremental session per unit, then a per-obligation race for what is left
 	{
 		var bwg sync.WaitGroup
@@ -337,7 +366,13 @@ func main() {
 			go func() {
 				defer bwg.Done()
 				defer func() { <-bsem }()
-				batchDischarge(r.Unit, r.Unit.obls, smtDir, 2000)
+				var todo []*Obligation
+				for _, o := range r.Unit.obls {
+					if !o.skipSolve {
+						todo = append(todo, o)
+					}
+				}
+				batchDischarge(r.Unit, todo, smtDir, 2000)
 			}()
 		}
 		bwg.Wait()
@@ -347,7 +382,7 @@ func main() {
 	osem := make(chan struct{}, *jobs/2+1)
 	for _, o := range obls {
 		o := o
-		if o.Status == "discharged" {
+		if o.Status == "discharged" || o.skipSolve {
 			continue
 		}
 		owg.Add(1)
